@@ -24,7 +24,9 @@ def seeded_table():
         title = m.get("needs_to_manifest", "").strip().splitlines()[0].lstrip("# ").strip()
         title = re.sub(r"^C\d\d\s*/\s*[ab]\s*[—-]\s*", "", title)
         r = res.get(name)
-        if not r:
+        if m.get("retired"):
+            caught, key = "retired: " + m["retired"][:140], ""
+        elif not r:
             caught, key = "not run", ""
         else:
             c = [k for k, v in r["checks"].items() if v["caught"]]
